@@ -53,28 +53,43 @@ Definition s_column : str := [32;99;111;108;117;109;110;32].          (* " colum
 Definition loc_text (l : loc) : str := s_line ++ decimal (fst l + 1) ++ s_column ++ decimal (snd l + 1).
 
 (* ---------------------------------------------------------------- *)
-(* The monad: state S, errors exec_error, panics, fuel exhaustion. *)
+(* poll accounting shared by both interpreters: the flag fails from its k-th poll on.  The poll
+   state is a separate component of the monad that computations can only touch through `poll`. *)
+Record polls := { p_count : N; p_trace : list N (* reversed *); p_budget : option N }.
+Definition polls0 (budget : option N) : polls := {| p_count := 0; p_trace := []; p_budget := budget |}.
+Definition poll_step (label : N) (p : polls) : polls * bool (* cancelled *) :=
+  let p' := {| p_count := p_count p + 1; p_trace := label :: p_trace p; p_budget := p_budget p |} in
+  match p_budget p with
+  | Some k => (p', N.leb k (p_count p'))
+  | None => (p', false)
+  end.
+
+(* The monad: interpreter state S, poll state, errors exec_error, panics, fuel exhaustion. *)
 Section Monad.
   Context {S : Type}.
-  Definition M (A : Type) := S -> outcome exec_error (A * S).
-  Definition ret {A} (a : A) : M A := fun s => Ok (a, s).
+  Definition M (A : Type) := S -> polls -> outcome exec_error (A * S * polls).
+  Definition ret {A} (a : A) : M A := fun s p => Ok (a, s, p).
   Definition bind {A B} (m : M A) (f : A -> M B) : M B :=
-    fun s => match m s with
-             | Ok (a, s') => f a s'
-             | Err e => Err e
-             | Panic p => Panic p
-             | OutOfFuel => OutOfFuel
-             end.
-  Definition fail {A} (e : exec_error) : M A := fun _ => Err e.
-  Definition panic {A} (p : N) : M A := fun _ => Panic p.
-  Definition out_of_fuel {A} : M A := fun _ => OutOfFuel.
+    fun s p => match m s p with
+               | Ok (a, s', p') => f a s' p'
+               | Err e => Err e
+               | Panic x => Panic x
+               | OutOfFuel => OutOfFuel
+               end.
+  Definition fail {A} (e : exec_error) : M A := fun _ _ => Err e.
+  Definition panic {A} (x : N) : M A := fun _ _ => Panic x.
+  Definition out_of_fuel {A} : M A := fun _ _ => OutOfFuel.
   Definition lift {A} (r : res A) : M A :=
-    fun s => match r with Ok a => Ok (a, s) | Err e => Err e | Panic p => Panic p | OutOfFuel => OutOfFuel end.
-  Definition get_state : M S := fun s => Ok (s, s).
-  Definition put_state (s : S) : M unit := fun _ => Ok (tt, s).
+    fun s p => match r with Ok a => Ok (a, s, p) | Err e => Err e | Panic x => Panic x | OutOfFuel => OutOfFuel end.
+  Definition get_state : M S := fun s p => Ok (s, s, p).
+  Definition modify (f : S -> S) : M unit := fun s p => Ok (tt, f s, p).
+  (* cancellation_flag.check(label) *)
+  Definition poll (label : N) : M unit :=
+    fun s p => let '(p', cancelled) := poll_step label p in
+               if cancelled then Err (ECancelled label) else Ok (tt, s, p').
   (* with_context on a computation *)
   Definition ctx_wrap {A} (c : context) (m : M A) : M A :=
-    fun s => match m s with Err e => Err (add_context c e) | r => r end.
+    fun s p => match m s p with Err e => Err (add_context c e) | r => r end.
 
   Fixpoint mapM {A B} (f : A -> M B) (l : list A) : M (list B) :=
     match l with
@@ -99,16 +114,6 @@ Definition L_scan : N := 3.             (* "processing scan matches" *)
 Definition L_matches : N := 4.          (* "processing matches" *)
 Definition L_eval_stmt : N := 5.        (* "evaluating statement" *)
 Definition L_eval_value : N := 6.       (* "evaluating value" *)
-
-(* poll accounting shared by both interpreters: the flag fails from its k-th poll on *)
-Record polls := { p_count : N; p_trace : list N (* reversed *) }.
-Definition polls0 : polls := {| p_count := 0; p_trace := [] |}.
-Definition poll_step (budget : option N) (label : N) (p : polls) : polls * bool (* cancelled *) :=
-  let p' := {| p_count := p_count p + 1; p_trace := label :: p_trace p |} in
-  match budget with
-  | Some k => (p', N.leb k (p_count p'))
-  | None => (p', false)
-  end.
 
 (* File::check_globals is Model/Globals.v (check_globals / run_globals) *)
 
